@@ -300,6 +300,31 @@ def run_case(case, rec, ctx):
                   f"with {len(tops)} permutations of the {case['n']}-body topology {case['ti']} registered, {collisions[0][0] if collisions else ''} denotes "
                   f"{collisions[0][1] if collisions else ''} in one topology and {collisions[0][2] if collisions else ''} in another",
                   {"collisions": collisions[:6]}, {**feats, "both_children_decay": both})
+        # registration history: attempts to register topologies of another decay (other final-state ids) must be refused and
+        # must leave the adapter as it was - otherwise one dictionary mixes variables of different decays
+        before = ad.registered_topologies
+        foreign_tops = []
+        for n_other in {2, 3, 4, 5} - {case["n"]}:
+            if n_other > case["n"] + 1 and ctx["tier"] == "quick":
+                continue
+            foreign_tops.append(create_isobar_topologies(n_other)[0])
+        import attrs as _attrs
+        foreign_tops.append(_attrs.evolve(top, edges={(i + 100 if i in top.outgoing_edge_ids else i): e for i, e in top.edges.items()}))
+        accepted = []
+        for ft in foreign_tops:
+            rec.hit("history:foreign_registration")
+            try:
+                ad.register_topology(ft)
+                accepted.append(str(ft)[:80])
+            except ValueError:
+                pass
+        after = ad.registered_topologies
+        rec.check(not accepted and after == before, "registration_not_atomic",
+                  f"adapter for final state {ids}: registering topologies of another decay was {'accepted' if accepted else 'refused'} "
+                  f"but the registry changed from {len(before)} to {len(after)} topologies (final states now {sorted({tuple(sorted(t.outgoing_edge_ids)) for t in after})})",
+                  {"accepted": accepted}, feats)
+        if after != before:
+            ad = HelicityAdapter(tops)   # continue the remaining checks on a clean adapter
         merged = ad.create_expressions()
         missing = [n_ for n_ in variants if n_ not in {s_.name for s_ in merged}]
         foreign = [s_.name for s_, e_ in merged.items() if e_ not in variants.get(s_.name, [])]
